@@ -26,6 +26,7 @@ type CEnv struct {
 	selfPath  string
 	depth     int
 	cells     map[string]*Val // captured variables of a closure callee: name -> pointer to the cell
+	bound     []string        // SMT symbols of the quantified variables in scope
 }
 
 func (fg *FnGen) env(st, old *State, vars map[string]*Val) *CEnv {
@@ -34,6 +35,16 @@ func (fg *FnGen) env(st, old *State, vars map[string]*Val) *CEnv {
 		e.vars[k] = v
 	}
 	return e
+}
+
+// mentionsBound: the term contains a quantified variable of the enclosing contract expression.
+func (e *CEnv) mentionsBound(t Term) bool {
+	for _, b := range e.bound {
+		if strings.Contains(t.S, b) {
+			return true
+		}
+	}
+	return false
 }
 
 func (e *CEnv) with(name string, v *Val) *CEnv {
@@ -367,6 +378,7 @@ func (fg *FnGen) quantParts(x *CQuant, env *CEnv) ([]string, Term, Term) {
 		}
 	}
 	inner := env.with(x.Var, &Val{T: tInt, L: []Term{kterm}})
+	inner.bound = append(append([]string{}, env.bound...), bv)
 	var rng Term = TTrue
 	if x.Lo != nil {
 		lo := fg.evalC(x.Lo, env).one()
@@ -901,9 +913,14 @@ func (fg *FnGen) evalCall(x *CCall, env *CEnv) *Val {
 	case "len":
 		v := fg.evalC(x.Args[0], env)
 		if mt, ok := types.Unalias(v.T).Underlying().(*types.Map); ok {
+			if env.mentionsBound(v.one()) {
+				// under a quantifier the facts about the length cannot be asserted outside of it
+				mc := mapComp(mt)
+				return &Val{T: tInt, L: []Term{Select(fg.get(env.st, mc+"!len", ArrSort(SInt)), v.one())}}
+			}
 			return &Val{T: tInt, L: []Term{fg.mapLen(env.st, v, mt)}}
 		}
-		if len(v.L) == 4 && v.Loc == nil {
+		if len(v.L) == 4 && v.Loc == nil && !env.mentionsBound(v.L[2]) && !env.mentionsBound(v.L[3]) {
 			// well-formed slice header in any state: 0 <= len <= cap <= 2^50
 			fg.assume(And(Le(IntLit(0), v.L[2]), Le(v.L[2], v.L[3]), Le(v.L[3], maxLenTerm)))
 		}
@@ -1026,6 +1043,46 @@ func (fg *FnGen) evalCall(x *CCall, env *CEnv) *Val {
 		fg.compSort(comp, ArrSort(SBool))
 		key := fg.mapKey(fg.evalC(x.Args[1], env))
 		return &Val{T: tBool, L: []Term{Select(fg.get(env.st, comp, ArrSort(SBool)), key)}}
+	case "waitson":
+		// inside `at call $wait`: the blocking wait listens (among others) to this channel
+		ch := fg.evalC(x.Args[0], env).one()
+		var alts []Term
+		for _, c := range fg.waitChans {
+			alts = append(alts, Eq(c, ch))
+		}
+		return &Val{T: tBool, L: []Term{Or(alts...)}}
+	case "loopphi":
+		// loopphi(L, N): the N-th phi of the header of loop L (an enclosing loop): lets an inner invariant speak
+		// about the progress of the outer loop
+		L, ok1 := x.Args[0].(*CInt)
+		N, ok2 := x.Args[1].(*CInt)
+		if !ok1 || !ok2 {
+			panic(unsupported("loopphi(L, N) needs literal ordinals"))
+		}
+		var li *loopInfo
+		for _, l := range fg.loops {
+			if l != nil && fmt.Sprint(l.ordinal) == L.Val {
+				li = l
+			}
+		}
+		if li == nil {
+			panic(unsupported("loopphi: no loop " + L.Val))
+		}
+		k := 0
+		for _, ins := range li.header.Instrs {
+			phi, ok := ins.(*ssa.Phi)
+			if !ok {
+				break
+			}
+			if fmt.Sprint(k) == N.Val {
+				if env.loop != nil && env.loop != li && !li.header.Dominates(env.loop.header) {
+					panic(unsupported("loopphi: loop " + L.Val + " does not enclose this loop"))
+				}
+				return env.ssaVal(phi)
+			}
+			k++
+		}
+		panic(unsupported("loopphi: no such phi"))
 	case "payload":
 		// boxed value of an interface holding a single-leaf value (ints, pointers)
 		v := fg.evalC(x.Args[0], env)
